@@ -29,6 +29,12 @@ pub enum JoinType {
 
 pub type JoinKeys = SmallVec<[DataValue; 2]>;
 
+/// Returns true if the join key contains a NULL. In SQL `NULL = NULL` is not true, so a row with
+/// such a key never has a join partner.
+pub(super) fn has_null_key(keys: &[DataValue]) -> bool {
+    keys.iter().any(|v| v.is_null())
+}
+
 impl<const T: JoinType> HashJoinExecutor<T> {
     #[try_stream(boxed, ok = DataChunk, error = ExecutorError)]
     pub async fn execute(self, left: BoxedExecutor, right: BoxedExecutor) {
@@ -44,7 +50,13 @@ impl<const T: JoinType> HashJoinExecutor<T> {
             let chunk = chunk?;
             let keys_chunk = Evaluator::new(&self.left_keys).eval_list(&chunk)?;
             for (row, keys) in chunk.rows().zip(keys_chunk.rows()) {
-                let keys = keys.values().collect();
+                let keys: JoinKeys = keys.values().collect();
+                // A key containing NULL never equals any key (SQL `=` is UNKNOWN on NULL).
+                // Such left rows can not match; they are kept only for the outer joins
+                // that must still emit them padded with NULLs.
+                if has_null_key(&keys) && !(T == JoinType::LeftOuter || T == JoinType::FullOuter) {
+                    continue;
+                }
                 hash_map.entry(keys).or_default().rows.push(row.to_owned());
             }
             tokio::task::consume_budget().await;
@@ -59,7 +71,14 @@ impl<const T: JoinType> HashJoinExecutor<T> {
             let chunk = chunk?;
             let keys_chunk = Evaluator::new(&self.right_keys).eval_list(&chunk)?;
             for (right_row, keys) in chunk.rows().zip(keys_chunk.rows()) {
-                if let Some(left_rows) = hash_map.get_mut(&keys.values().collect::<JoinKeys>()) {
+                let keys: JoinKeys = keys.values().collect();
+                // a probe row with a NULL in its key is unmatched by definition
+                let left_rows = if has_null_key(&keys) {
+                    None
+                } else {
+                    hash_map.get_mut(&keys)
+                };
+                if let Some(left_rows) = left_rows {
                     left_rows.matched = true;
                     for left_row in &left_rows.rows {
                         let values = left_row.iter().cloned().chain(right_row.values());
@@ -120,7 +139,10 @@ impl HashSemiJoinExecutor {
             let chunk = chunk?;
             let keys_chunk = Evaluator::new(&self.right_keys).eval_list(&chunk)?;
             for row in keys_chunk.rows() {
-                key_set.insert(row.values().collect());
+                let keys: JoinKeys = row.values().collect();
+                if !has_null_key(&keys) {
+                    key_set.insert(keys);
+                }
             }
             tokio::task::consume_budget().await;
         }
@@ -131,7 +153,11 @@ impl HashSemiJoinExecutor {
             let keys_chunk = Evaluator::new(&self.left_keys).eval_list(&chunk)?;
             let exists = keys_chunk
                 .rows()
-                .map(|key| key_set.contains(&key.values().collect::<JoinKeys>()) ^ self.anti)
+                .map(|key| {
+                    let keys: JoinKeys = key.values().collect();
+                    // NULL keys never match: semi drops the row, anti keeps it
+                    (!has_null_key(&keys) && key_set.contains(&keys)) ^ self.anti
+                })
                 .collect::<Vec<bool>>();
             yield chunk.filter(&exists);
         }
@@ -158,8 +184,12 @@ impl HashSemiJoinExecutor2 {
             let chunk = chunk?;
             let keys_chunk = Evaluator::new(&self.right_keys).eval_list(&chunk)?;
             for (key, row) in keys_chunk.rows().zip(chunk.rows()) {
+                let keys: JoinKeys = key.values().collect();
+                if has_null_key(&keys) {
+                    continue;
+                }
                 let chunk = key_set
-                    .entry(key.values().collect())
+                    .entry(keys)
                     .or_insert_with(|| DataChunkBuilder::unbounded(&self.right_types))
                     .push_row(row.values());
                 assert!(chunk.is_none());
@@ -177,7 +207,13 @@ impl HashSemiJoinExecutor2 {
             let keys_chunk = Evaluator::new(&self.left_keys).eval_list(&chunk)?;
             let mut exists = Vec::with_capacity(chunk.cardinality());
             for (key, lrow) in keys_chunk.rows().zip(chunk.rows()) {
-                let b = if let Some(rchunk) = key_set.get(&key.values().collect::<JoinKeys>()) {
+                let keys: JoinKeys = key.values().collect();
+                let rchunk = if has_null_key(&keys) {
+                    None
+                } else {
+                    key_set.get(&keys)
+                };
+                let b = if let Some(rchunk) = rchunk {
                     let lchunk = self.left_row_to_chunk(&lrow, rchunk.cardinality());
                     let join_chunk = lchunk.row_concat(rchunk.clone());
                     let ArrayImpl::Bool(a) = Evaluator::new(&self.condition).eval(&join_chunk)?
